@@ -17,7 +17,11 @@ from pathlib import Path
 from dataclasses import dataclass
 
 from pyoak.legacy.match.error import ASTXpathDefinitionError
-from pyoak.legacy.match.xpath import ASTXpath, ASTXpathAnywhereElement
+from pyoak.legacy.match.xpath import ASTXpath
+try:        # an internal sentinel class, read only by the mechanism-level (K2) comparison of parsed element lists
+    from pyoak.legacy.match.xpath import ASTXpathAnywhereElement
+except ImportError:                      # a library without it: every element is encoded by its four attributes
+    ASTXpathAnywhereElement = ()
 
 from pyoak.origin import NO_ORIGIN
 
